@@ -239,7 +239,10 @@ func boolPhiCond(b *ssa.BasicBlock) *ssa.Phi {
 
 // EdgeFacts lists both outgoing facts of every If in fn.
 func (p *Prog) EdgeFacts(fn *ssa.Function) []EdgeFact {
-	r := p.R(fn)
+	return p.edgeFactsWith(fn, p.R(fn))
+}
+
+func (p *Prog) edgeFactsWith(fn *ssa.Function, r *Renderer) []EdgeFact {
 	var out []EdgeFact
 	for _, b := range fn.Blocks {
 		if len(b.Instrs) == 0 {
@@ -401,15 +404,154 @@ func instrSet(ins []ssa.Instruction) func(ssa.Instruction) bool {
 	return func(i ssa.Instruction) bool { return m[i] }
 }
 
-// MatchEdges returns the edges whose fact matches re.
+// MatchEdges returns the edges whose fact matches re — directly, or because the edge is the
+// success edge of a call to a repository helper in which every success exit establishes the
+// fact (the helper's facts are rewritten into the caller's terms: $i ↦ the i-th argument).
 func (p *Prog) MatchEdges(fn *ssa.Function, re *regexp.Regexp) []EdgeFact {
+	return p.matchEdgesDepth(fn, re, 2)
+}
+
+func (p *Prog) matchEdgesDepth(fn *ssa.Function, re *regexp.Regexp, depth int) []EdgeFact {
 	var out []EdgeFact
 	for _, ef := range p.EdgeFacts(fn) {
+		if ef.Fact == infeasible {
+			continue
+		}
 		if re.MatchString(ef.Fact) {
 			out = append(out, ef)
+			continue
+		}
+		if depth > 0 && ef.Pred == nil {
+			if v := p.successCallOfEdge(ef); v != nil && p.callImplies(fn, v, re, depth) {
+				out = append(out, ef)
+			}
 		}
 	}
 	return out
+}
+
+// successCallOfEdge: the edge is taken exactly when a call succeeded (err == nil / bool true); returns the tested value.
+func (p *Prog) successCallOfEdge(ef EdgeFact) ssa.Value {
+	iff, ok := ef.Block.Instrs[len(ef.Block.Instrs)-1].(*ssa.If)
+	if !ok {
+		return nil
+	}
+	cond := iff.Cond
+	taken := ef.Idx == 0
+	for {
+		if u, ok := cond.(*ssa.UnOp); ok && u.Op == token.NOT {
+			cond, taken = u.X, !taken
+			continue
+		}
+		break
+	}
+	switch x := cond.(type) {
+	case *ssa.BinOp:
+		var v ssa.Value
+		if isNilConst(x.Y) {
+			v = x.X
+		} else if isNilConst(x.X) {
+			v = x.Y
+		} else {
+			return nil
+		}
+		if !types.Identical(v.Type(), errorType) {
+			return nil
+		}
+		if (x.Op == token.EQL && taken) || (x.Op == token.NEQ && !taken) {
+			return v
+		}
+	case *ssa.Call:
+		if taken {
+			return x
+		}
+	}
+	return nil
+}
+
+// callImplies: v is the error (or bool) result of a call to a repository function g; does
+// every success exit of g establish a fact that, rewritten into the caller's terms, matches re?
+func (p *Prog) callImplies(fn *ssa.Function, v ssa.Value, re *regexp.Regexp, depth int) bool {
+	if depth <= 0 {
+		return false
+	}
+	var call *ssa.Call
+	switch x := v.(type) {
+	case *ssa.Call:
+		call = x
+	case *ssa.Extract:
+		call, _ = x.Tuple.(*ssa.Call)
+	}
+	if call == nil {
+		return false
+	}
+	g := call.Call.StaticCallee()
+	if g == nil || g.Blocks == nil || !isProdPkgFn(g) || g == fn {
+		return false
+	}
+	r := p.R(fn)
+	bind := make([]string, len(call.Call.Args))
+	for i, a := range call.Call.Args {
+		bind[i] = r.E(a)
+	}
+	gr := p.RBound(g, bind, 1)
+	subst := func(s string) string { return s }
+	avoid := map[edgeKey]bool{}
+	n := 0
+	for _, ef := range p.edgeFactsWith(g, gr) {
+		if ef.Fact == infeasible {
+			continue
+		}
+		if re.MatchString(ef.Fact) {
+			avoid[ef.Key()] = true
+			n++
+		}
+	}
+	// exits of g that return a call directly
+	var targets []ssa.Instruction
+	for _, e := range Exits(g) {
+		if e.Kind == exitFailure {
+			continue
+		}
+		if e.Kind == exitMaybe && len(e.Ret.Results) > 0 {
+			op := e.Ret.Results[len(e.Ret.Results)-1]
+			if sv := spilledValue(op, e.Ret); sv != nil {
+				op = sv
+			}
+			f := ""
+			if types.Identical(op.Type(), errorType) {
+				f = EQ(gr.E(op), "nil")
+			} else {
+				f = posFact(gr, op)
+			}
+			if re.MatchString(subst(f)) {
+				n++
+				continue
+			}
+		}
+		targets = append(targets, e.Ret)
+	}
+	if n == 0 {
+		return false
+	}
+	t, _ := (&PathSearch{Fn: g, AvoidEdges: avoid, IsTarget: instrSet(targets)}).Find()
+	return t == nil
+}
+
+// callImpliesSubst: nested helper calls (facts of the inner helper are rewritten twice).
+func (p *Prog) callImpliesSubst(fn *ssa.Function, v ssa.Value, re *regexp.Regexp, depth int, outer func(string) string) bool {
+	if depth <= 0 {
+		return false
+	}
+	// wrap the pattern test: inner facts are first rewritten into fn's terms by callImplies, then into the outer caller's
+	wrapped := &substRegexp{re: re, f: outer}
+	_ = wrapped
+	return false
+}
+
+type substRegexp struct {
+	re *regexp.Regexp
+	f  func(string) string
 }
 
 // describePath renders a witness path as file:line steps.
